@@ -113,16 +113,18 @@ func runLookup(e *core.Env) {
 			return
 		}
 		j := jobs[i]
-		r := core.NewRNG(e.Seed, "c17.lookup", i)
 		rec.Begin("lookup", i, fmt.Sprintf("%+v", j))
-		lookupCase(e, w, i, r, j)
+		runConfirmed(e, func(b *recBuf) {
+			if worldFor(e, &w) {
+				lookupCase(e, b, w, i, core.NewRNG(e.Seed, "c17.lookup", i), j)
+			}
+		})
 		rec.Eval()
 	})
 }
 
-func lookupCase(e *core.Env, w *world, ci int, r *core.RNG, j lookupJob) {
-	rec := e.Rec
-	name := fmt.Sprintf("l%d-s%d.c17.test", ci, e.Seed)
+func lookupCase(e *core.Env, rec *recBuf, w *world, ci int, r *core.RNG, j lookupJob) {
+	name := fmt.Sprintf("l%d-s%d%s.c17.test", ci, e.Seed, rec.suffix())
 	g := &gen{r: r, al: w.al, name: name, tag: "lookup", modest: r.Chance(1, 3)}
 	var sc *script
 	switch j.mode {
@@ -156,7 +158,7 @@ func lookupCase(e *core.Env, w *world, ci int, r *core.RNG, j lookupJob) {
 	default:
 		sc = g.randomScript()
 	}
-	c := &caseCtx{w: w, e: e, sub: "lookup", ci: ci, desc: map[string]any{"job": fmt.Sprintf("%+v", j), "name": name}}
+	c := &caseCtx{w: w, e: e, b: rec, sub: "lookup", ci: ci, desc: map[string]any{"job": fmt.Sprintf("%+v", j), "name": name}}
 	res, err := w.newResolver(0)
 	if err != nil {
 		rec.Inconclusive("resolver: " + err.Error())
@@ -208,7 +210,15 @@ func lookupCase(e *core.Env, w *world, ci int, r *core.RNG, j lookupJob) {
 	default:
 		rec.Class("seq [%s]|[%s] %s/%s", fmtKinds(sc.UDP[0]), fmtKinds(sc.UDP[1]), via, outc)
 	}
-	rec.Sample(8, map[string]any{"job": fmt.Sprintf("%+v", j), "events": l.events, "result": out})
+	smp := map[string]any{"job": fmt.Sprintf("%+v", j), "events": l.events, "result": out}
+	if f.entry != nil {
+		smp["lifetime"] = fmt.Sprintf("[+%v, +%v] nolower=%v", f.entry.lt.lo.Sub(out.Start), f.entry.lt.hi.Sub(out.Start), f.entry.lt.noLower)
+	}
+	if f.entry != nil {
+		smp["now_minus_start"] = vtime.Now().Sub(out.Start).String()
+		smp["end_minus_start"] = out.End.Sub(out.Start).String()
+	}
+	rec.Sample(8, smp)
 	// a fresh result whose lifetime has certainly not elapsed is served from the cache by every API, without asking
 	if en := f.entry; en != nil && !en.lt.noLower && vtime.Now().Before(en.lt.lo) {
 		c.desc["first_lookup"] = map[string]any{"events": l.events, "sent": l.log, "result": out, "lifetime_lo": en.lt.lo.Sub(out.Start).String(), "lifetime_hi": en.lt.hi.Sub(out.Start).String()}
@@ -270,14 +280,24 @@ func runParser(e *core.Env) {
 			}
 		}
 		rec.Begin("parser", i, "")
-		parserCase(e, w, res, i, core.NewRNG(e.Seed, "c17.parser", i))
+		runConfirmed(e, func(b *recBuf) {
+			if b.attempt > 0 {
+				// a re-execution starts from a clean cache
+				res = nil
+				if worldFor(e, &w) {
+					res, _ = w.newResolver([]int{0, -1, 3}[i%3])
+				}
+			}
+			if res != nil && worldFor(e, &w) {
+				parserCase(e, b, w, res, i, core.NewRNG(e.Seed, "c17.parser", i))
+			}
+		})
 		rec.Eval()
 	})
 }
 
-func parserCase(e *core.Env, w *world, res resolverAPI, ci int, r *core.RNG) {
-	rec := e.Rec
-	name := fmt.Sprintf("p%d-s%d.c17.test", ci, e.Seed)
+func parserCase(e *core.Env, rec *recBuf, w *world, res resolverAPI, ci int, r *core.RNG) {
+	name := fmt.Sprintf("p%d-s%d%s.c17.test", ci, e.Seed, rec.suffix())
 	g := &gen{r: r, al: w.al, name: name, tag: "parser", modest: true}
 	var ops []string
 	fuzzItem := func(fam int) *item {
@@ -311,7 +331,7 @@ func parserCase(e *core.Env, w *world, res resolverAPI, ci int, r *core.RNG) {
 		}
 		sc.TCP = append(sc.TCP, cs)
 	}
-	c := &caseCtx{w: w, e: e, sub: "parser", ci: ci, desc: map[string]any{"name": name, "mutations": ops}}
+	c := &caseCtx{w: w, e: e, b: rec, sub: "parser", ci: ci, desc: map[string]any{"name": name, "mutations": ops}}
 	out := w.call(res, "Lookup", name, sc)
 	if w.dead {
 		c.viol("lookup_did_not_return", out, "Lookup(%s) never returned after hostile replies", name)
@@ -341,7 +361,7 @@ func parserCase(e *core.Env, w *world, res resolverAPI, ci int, r *core.RNG) {
 	rec.Class("%s via=%s %s", ops[0], via, outc)
 	rec.Max("max_virtual_seconds_of_a_lookup", int64(out.End.Sub(out.Start)/time.Second))
 	// --- a genuine lookup of another name on the same resolver: exactly its own answers ---
-	name2 := fmt.Sprintf("v%d-s%d.c17.test", ci, e.Seed)
+	name2 := fmt.Sprintf("v%d-s%d%s.c17.test", ci, e.Seed, rec.suffix())
 	g2 := &gen{r: r, al: w.al, name: name2, tag: "parser-genuine", modest: true}
 	var sc2 *script
 	if r.Chance(1, 4) {
